@@ -12,6 +12,7 @@ import (
 	"time"
 
 	"github.com/pion/stun/v3"
+	"github.com/pion/stun/v3/verifharness/gen"
 	"github.com/pion/stun/v3/verifharness/ref"
 	"github.com/pion/stun/v3/verifharness/sim"
 )
@@ -33,6 +34,7 @@ type rigOpts struct {
 	keepLog       bool
 	useRoles      bool
 	perturb       func(cp, role string) int
+	epoch         time.Time // instant of virtual time zero (zero value: sim.Epoch)
 }
 
 func (o rigOpts) String() string {
@@ -52,6 +54,7 @@ func (o rigOpts) String() string {
 	add(o.realCollector, "ticker-collector")
 	add(o.collNoWait, "collector-close-does-not-wait")
 	add(o.realClock, "system-clock")
+	add(!o.epoch.IsZero(), "epoch="+o.epoch.UTC().Format(time.RFC3339Nano))
 	if len(s) == 0 {
 		return "default"
 	}
@@ -147,6 +150,9 @@ func newRig(o rigOpts) (*rig, error) {
 	w := sim.NewWorld()
 	w.KeepLog = o.keepLog
 	w.Perturb = o.perturb
+	if !o.epoch.IsZero() {
+		w.Base = o.epoch
+	}
 	if o.useRoles {
 		w.UseRoles()
 	}
@@ -336,7 +342,43 @@ func request(id [12]byte, size int, fill byte) *stun.Message {
 
 // response builds a decodable success response for id with a unique tag.
 func response(id [12]byte, tag string) []byte {
-	m := stun.MustBuild(stun.BindingSuccess, stun.NewTransactionIDSetter(id), stun.NewSoftware(tag))
+	return dressedResponse(id, tag, gen.HashString(tag)^uint64(id[0])<<32^uint64(id[11])<<40)
+}
+
+// dressedResponse: what makes a message the answer to a transaction is its transaction id, nothing else. The message
+// type (any class, any method) and the attributes (a FINGERPRINT that does not verify, is too short or is not last, a
+// random MESSAGE-INTEGRITY, an unknown comprehension-required attribute, a truncated ERROR-CODE) are the handler's
+// business. h selects the dress; half of the values give the plain Binding success response.
+func dressedResponse(id [12]byte, tag string, h uint64) []byte {
+	typ := stun.BindingSuccess
+	switch h % 8 {
+	case 0:
+		typ = stun.BindingError
+	case 1:
+		typ = stun.NewType(stun.MethodBinding, stun.ClassIndication)
+	case 2:
+		typ = stun.NewType(stun.MethodBinding, stun.ClassRequest)
+	case 3:
+		typ = stun.NewType(stun.Method(h>>8%0x1000), stun.MessageClass(h>>20%4))
+	}
+	m := stun.MustBuild(typ, stun.NewTransactionIDSetter(id), stun.NewSoftware(tag))
+	switch h >> 24 % 12 {
+	case 0:
+		m.Add(stun.AttrFingerprint, []byte{byte(h), byte(h >> 8), byte(h >> 16), 0x5A}) // does not verify
+	case 1:
+		m.Add(stun.AttrFingerprint, []byte{1, 2, 3}) // wrong size
+	case 2:
+		_ = stun.Fingerprint.AddTo(m) // correct ...
+		m.Add(stun.AttrSoftware, []byte("after")) // ... but no longer last
+	case 3:
+		m.Add(stun.AttrMessageIntegrity, bytes.Repeat([]byte{byte(h >> 3)}, 20))
+	case 4:
+		m.Add(stun.AttrType(0x7777), []byte{9, 9}) // unknown, comprehension-required range
+	case 5:
+		m.Add(stun.AttrErrorCode, []byte{0, 0}) // too short to be an ERROR-CODE
+	case 6:
+		_ = stun.Fingerprint.AddTo(m)
+	}
 
 	return append([]byte(nil), m.Raw...)
 }
@@ -480,8 +522,12 @@ func (r *rig) writesFor(t *tx, all []sim.WriteRec) []sim.WriteRec {
 		}
 	}
 	var out []sim.WriteRec
+	wireID := t.ID[:] // the id on the wire is whatever the raw header held when Start was called
+	if len(t.Raw) >= 20 {
+		wireID = t.Raw[8:20]
+	}
 	for _, wr := range all {
-		if len(wr.Bytes) >= 20 && bytes.Equal(wr.Bytes[8:20], t.ID[:]) && wr.Stamp > t.CallStamp && wr.Stamp < next {
+		if len(wr.Bytes) >= 20 && bytes.Equal(wr.Bytes[8:20], wireID) && wr.Stamp > t.CallStamp && wr.Stamp < next {
 			// a write still in flight for an earlier transaction with the same id (it was parked while the id was
 			// restarted) carries that transaction's bytes, not ours
 			foreign := false
@@ -743,6 +789,10 @@ func (r *rig) closeAccounting() []rigProblem {
 	n := atomic.LoadInt32(&r.conn.CloseCalls)
 	if (r.opts.noConnClose && n != 0) || (!r.opts.noConnClose && n != 1) {
 		probs = append(probs, rigProblem{"conn-close-count", "conn-close-count", fmt.Sprintf("connection Close called %d times (WithNoConnClose=%v)", n, r.opts.noConnClose)})
+	}
+	if h := atomic.LoadInt32(&r.conn.HalfCloses); r.opts.noConnClose && h != 0 {
+		// "then never": a connection the client does not own is not shut down in part either
+		probs = append(probs, rigProblem{"conn-close-count", "conn-half-closed", fmt.Sprintf("WithNoConnClose: CloseRead/CloseWrite called %d times on the caller's connection", h)})
 	}
 	if r.coll != nil {
 		if k := atomic.LoadInt32(&r.coll.CloseCalls); k != 1 {
